@@ -3,6 +3,7 @@ import PrefVerif.Driver.C20
 import PrefVerif.Driver.Voting
 import PrefVerif.Driver.C02
 import PrefVerif.Driver.C17
+import PrefVerif.Driver.IO
 open Lean PrefVerif.Driver
 
 def handlers : List (String × Handler) := [
@@ -12,7 +13,12 @@ def handlers : List (String × Handler) := [
   ("voting.rule", Voting.rule),
   ("c02.run", C02.runOps),
   ("c17.from_ordinal", C17.fromOrd),
-  ("c17.factorise", C17.fact)
+  ("c17.factorise", C17.fact),
+  ("io.write", IO.write),
+  ("io.parse", IO.parse),
+  ("io.read", IO.read),
+  ("io.tables", IO.tables),
+  ("io.prim", IO.prim)
 ]
 
 def dispatch (j : Json) : Json :=
